@@ -695,6 +695,109 @@ impl Reuse {
 }
 
 // ---------------------------------------------------------------------------------------------
+/// A Range that lives inside a sheet (merged range, conditional-format range, auto filter) is printed, the sheet is
+/// edited so that the range moves, and it is printed again: at every moment the printed text must parse to the corners
+/// the getters report (a text computed earlier must not be served again).
+const HIST_RANGES: [&str; 6] = ["B2", "B2:C3", "$B$2:$C$3", "E4:F5", "C:D", "3:4"];
+const HIST_EDITS: [&str; 6] = ["insert-row-1x2", "insert-column-1x3", "remove-row-1x1", "remove-column-1x1", "insert-row-then-column", "none"];
+struct RangeHistory;
+impl RangeHistory {
+    fn locate(i: u64) -> (&'static str, &'static str, &'static str) {
+        let carriers = ["merge", "cond-format", "auto-filter"];
+        let c = carriers[(i % 3) as usize];
+        let r = HIST_RANGES[((i / 3) % HIST_RANGES.len() as u64) as usize];
+        let e = HIST_EDITS[(i / 3 / HIST_RANGES.len() as u64) as usize];
+        (c, r, e)
+    }
+}
+impl Space for RangeHistory {
+    fn len(&self) -> u64 {
+        (3 * HIST_RANGES.len() * HIST_EDITS.len()) as u64
+    }
+    fn describe(&self, i: u64) -> Value {
+        let (c, r, e) = Self::locate(i);
+        json!({"kind": "range-printed-edited-printed", "carrier": c, "range": r, "edit": e})
+    }
+    fn tags(&self, i: u64) -> Vec<String> {
+        let (c, _, e) = Self::locate(i);
+        vec![format!("range-history:{}", c), format!("edit:{}", e)]
+    }
+    fn run(&self, i: u64, sink: &mut Sink) {
+        let (carrier, range, edit) = Self::locate(i);
+        let tl = self.tags(i);
+        let tags: Vec<&str> = tl.iter().map(|s| s.as_str()).collect();
+        let case = self.describe(i);
+        sink.evaluations += 1;
+        // (printed text, corners as the getters report them) before and after the edit
+        fn look(ws: &umya_spreadsheet::Worksheet, carrier: &str) -> Option<(String, String)> {
+            let show = |r: &Range| {
+                let part = |n: Option<u32>, l: Option<bool>, col: bool| match (n, l) {
+                    (Some(n), Some(l)) => format!("{}{}", if l { "$" } else { "" }, if col { b26(n) } else { n.to_string() }),
+                    _ => String::new(),
+                };
+                let sc = r.get_coordinate_start_col();
+                let sr = r.get_coordinate_start_row();
+                let ec = r.get_coordinate_end_col();
+                let er = r.get_coordinate_end_row();
+                let a = format!("{}{}", part(sc.map(|c| *c.get_num()), sc.map(|c| *c.get_is_lock()), true), part(sr.map(|c| *c.get_num()), sr.map(|c| *c.get_is_lock()), false));
+                let b = format!("{}{}", part(ec.map(|c| *c.get_num()), ec.map(|c| *c.get_is_lock()), true), part(er.map(|c| *c.get_num()), er.map(|c| *c.get_is_lock()), false));
+                let from_corners = if b.is_empty() { a } else { format!("{}:{}", a, b) };
+                (r.get_range(), from_corners)
+            };
+            match carrier {
+                "merge" => ws.get_merge_cells().first().map(show),
+                "cond-format" => ws.get_conditional_formatting_collection().first().and_then(|cf| cf.get_sequence_of_references().get_range_collection().first().map(show)),
+                _ => ws.get_auto_filter().map(|f| show(f.get_range())),
+            }
+        }
+        let r = guarded(move || {
+            let mut book = umya_spreadsheet::new_file();
+            let ws = book.get_sheet_mut(&0).unwrap();
+            match carrier {
+                "merge" => {
+                    ws.add_merge_cells(range);
+                }
+                "cond-format" => {
+                    let mut cf = umya_spreadsheet::ConditionalFormatting::default();
+                    let mut sq = umya_spreadsheet::SequenceOfReferences::default();
+                    sq.set_sqref(range);
+                    cf.set_sequence_of_references(sq);
+                    ws.add_conditional_formatting_collection(cf);
+                }
+                _ => ws.set_auto_filter(range),
+            }
+            let before = look(ws, carrier);
+            match edit {
+                "insert-row-1x2" => ws.insert_new_row(&1, &2),
+                "insert-column-1x3" => ws.insert_new_column_by_index(&1, &3),
+                "remove-row-1x1" => ws.remove_row(&1, &1),
+                "remove-column-1x1" => ws.remove_column_by_index(&1, &1),
+                "insert-row-then-column" => {
+                    ws.insert_new_row(&2, &1);
+                    let _ = look(ws, carrier);
+                    ws.insert_new_column_by_index(&2, &1);
+                }
+                _ => {}
+            }
+            (before, look(ws, carrier))
+        });
+        match r {
+            Err(m) => sink.violations.push(Violation::new("range-prints-its-corners", &format!("panic:{}", panic_class(&m)), &tags, case, m)),
+            Ok((before, after)) => {
+                for (when, x) in [("before the edit", before), ("after the edit", after)] {
+                    if let Some((printed, from_corners)) = x {
+                        sink.obs(&printed);
+                        if printed != from_corners {
+                            sink.violations.push(Violation::new("range-prints-its-corners", "printed-text-is-not-the-corners", &tags, case.clone(), format!("{} range given {:?}, {}: get_range() prints {:?} while the corner getters spell {:?}", carrier, range, when, printed, from_corners)));
+                        }
+                    }
+                }
+            }
+        }
+    }
+}
+
+// ---------------------------------------------------------------------------------------------
 pub fn space(tier: Tier, id: &str) -> Option<Box<dyn Space>> {
     if let Some(r) = reversed_of(id, |base| space(tier, base)) {
         return r;
@@ -708,6 +811,7 @@ pub fn space(tier: Tier, id: &str) -> Option<Box<dyn Space>> {
         "ranges" => Some(Box::new(Ranges { cases: range_cases() })),
         "addresses" => Some(Box::new(Addresses { names: sheet_names() })),
         "reuse" => Some(Box::new(Reuse)),
+        "range-history" => Some(Box::new(RangeHistory)),
         _ => None,
     }
 }
@@ -717,7 +821,7 @@ fn replay(tier: Tier, case: &Value) -> Vec<Violation> {
 }
 
 fn run(ctx: &Ctx) -> i32 {
-    let ids = ["columns", "grid", "ranges", "addresses", "reuse", "columns~rev", "grid~rev", "ranges~rev", "addresses~rev", "ranges~par", "addresses~par", "reuse~par"];
+    let ids = ["columns", "grid", "ranges", "addresses", "reuse", "range-history", "columns~rev", "grid~rev", "ranges~rev", "addresses~rev", "ranges~par", "addresses~par", "reuse~par"];
     let spaces = ids.iter().map(|id| (*id, space(ctx.tier, id).unwrap())).collect();
     let thorough = ctx.tier == Tier::Thorough;
     run_e1(
